@@ -14,10 +14,19 @@ from luqum.utils import UnknownOperationResolver, OpenRangeTransformer
 from luqum.visitor import TreeTransformer
 
 
+def _operand(t):
+    import copy
+    t = copy.deepcopy(t)
+    return T.Group(t) if isinstance(t, (T.BaseOperation, T.Plus, T.Prohibit, T.Not)) else t
+
+
 def transformers():
     out = [("copy", lambda t: TreeTransformer().visit(t), None),
            ("auto_head_tail", lambda t: auto_head_tail(gen.strip_layout(t)), None),       # on the tree as built by hand (no layout)
            ("auto_head_tail/parsed", auto_head_tail, None),
+           # parsed queries grafted below hand-built nodes (negate a user query, add a filter to it)
+           ("auto_head_tail/grafted-not", lambda t: auto_head_tail(T.Not(_operand(t))), None),
+           ("auto_head_tail/grafted-and", lambda t: auto_head_tail(T.AndOperation(T.SearchField("status", T.Word("active")), _operand(t))), None),
            ("open_range", OpenRangeTransformer(merge_ranges=False), None),
            ("open_range+merge", OpenRangeTransformer(merge_ranges=True), None)]
     for name, target in (("resolve:AND", T.AndOperation), ("resolve:OR", T.OrOperation), ("resolve:BOOL", T.BoolOperation),
@@ -30,13 +39,16 @@ def transformers():
 TRANSFORMERS = transformers()
 
 
-def mixed_implicit(t):
+def mixed_implicit(t, transformer=None):
     """known finding D9: an implicit operation with an un-parenthesised AND/OR operand, or an implicit operation that is
-    itself an un-parenthesised operand of an AND/OR"""
+    itself an un-parenthesised operand of an AND/OR - where the explicit operator differs from the one the implicit operation is
+    resolved to (resolved to the SAME operator the chain is merely flattened on re-parsing, which keeps the meaning)"""
+    same = {"resolve:AND": T.AndOperation, "resolve:OR": T.OrOperation}.get(transformer)
+    kinds = tuple(k for k in (T.AndOperation, T.OrOperation) if k is not same)
     for n in gen.nodes(t):
-        if isinstance(n, T.UnknownOperation) and any(isinstance(c, (T.AndOperation, T.OrOperation)) for c in n.operands):
+        if isinstance(n, T.UnknownOperation) and any(isinstance(c, kinds) for c in n.operands):
             return True
-        if isinstance(n, (T.AndOperation, T.OrOperation)) and any(isinstance(c, T.UnknownOperation) for c in n.operands):
+        if isinstance(n, kinds) and any(isinstance(c, T.UnknownOperation) for c in n.operands):
             return True
     return False
 
@@ -66,19 +78,19 @@ def check(q):
         try:
             t2 = tr(t)
         except Exception as e:  # noqa: BLE001
-            fails.append({"input": q, "transformer": name, "mixed_implicit": mixed_implicit(t), "glued_implicit": glued_implicit(t), "observation": "transformer raised %r" % (e,)})
+            fails.append({"input": q, "transformer": name, "mixed_implicit": mixed_implicit(t, name), "glued_implicit": glued_implicit(t), "observation": "transformer raised %r" % (e,)})
             continue
         s = t2.__str__(head_tail=True)
         try:
             t3 = parser.parse(s)
         except Exception as e:  # noqa: BLE001
-            fails.append({"input": q, "transformer": name, "mixed_implicit": mixed_implicit(t), "glued_implicit": glued_implicit(t), "printed": s,
+            fails.append({"input": q, "transformer": name, "mixed_implicit": mixed_implicit(t, name), "glued_implicit": glued_implicit(t), "printed": s,
                           "observation": "printed %r is not accepted: %s" % (s, e)})
             continue
         t3r = reader(t3) if reader is not None else t3
         diff = meaning.same_meaning(t2, t3r)
         if diff:
-            fails.append({"input": q, "transformer": name, "mixed_implicit": mixed_implicit(t), "glued_implicit": glued_implicit(t), "printed": s,
+            fails.append({"input": q, "transformer": name, "mixed_implicit": mixed_implicit(t, name), "glued_implicit": glued_implicit(t), "printed": s,
                           "signature": name, "observation": "printed %r re-parses to %r: %s" % (s, t3, diff)})
     if TR.fingerprint(t) != f0 or TR.layout(t) != l0:
         fails.append({"input": q, "transformer": "any", "mixed_implicit": False, "observation": "input tree modified"})
